@@ -320,12 +320,12 @@ def rule_drain(ctx, rep):
             r.finding(inst, loc_str(b.f, c.loc), "kind is parked by name but %s does not add a graph node: an unreferenced declaration of this kind vanishes from the library" % (vn or "its visitor"))
 
 
-def rule_merge(ctx, rep):
-    r = rep.rule("R-C03-merge", "re-assembly after the sort drains each by-name map on its own: no remove() on one declaration map is control-dependent "
+def rule_merge(ctx, rep, rid="R-C03-merge"):
+    r = rep.rule(rid, "re-assembly after the sort drains each by-name map on its own: no remove() on one declaration map is control-dependent "
                                 "on the outcome of a remove() on the other (a type and a POU may share a name)", floor=2, floor_what="remove() calls in the merge")
     ap = ctx.prog.get("ironplc_analyzer::xform_toposort_declarations::apply")
     if not ap:
-        rep.error("R-C03-merge", "apply not found")
+        rep.error(rid, "apply not found")
         return
     bodies = [ap[0]] + [cb for cb in ctx.prog.bodies.values() if cb.f.get("parent") == ap[0].id]
     from vlib.mir import switch_info
